@@ -998,6 +998,21 @@ Proof.
   - inversion H.
 Qed.
 
+(* finding fence-zero-range: SourceRange::default() = 0:0-0:0 lies outside every input (rows and columns are 1-based)
+   and makes err_location's `end.col - 1` underflow; no range built from cursors is of that form (ranges_in_bounds) *)
+Theorem zero_range_outside : forall ws,
+  range_withinb ws (SR 0 0 0 0) = false /\ fmt_safeb (SR 0 0 0 0) = false /\ is_zero (SR 0 0 0 0) = true.
+Proof. intros ws. repeat split; reflexivity. Qed.
+
+Theorem cursor_range_not_zero : forall gs a b bump, ends_nl gs -> a <= b -> is_zero (to_srange gs (CR a b bump)) = false.
+Proof.
+  intros gs a b bump Hnl Hab.
+  destruct (ranges_in_bounds gs a b bump Hnl Hab) as [Hw _].
+  unfold range_within in Hw. unfold is_zero.
+  destruct (sr_r1 (to_srange gs (CR a b bump)) =? 0)%Z eqn:E; [|reflexivity].
+  apply Z.eqb_eq in E. lia.
+Qed.
+
 (* format_error's `errors.0.len() - n`: negative exactly when the text is shorter (in bytes) than the
    number of errors shown *)
 Theorem fmt_count_underflow_iff : forall text nerr,
